@@ -64,6 +64,11 @@ fn finding(clause: impl Into<String>, what: impl Into<String>) -> Finding {
     Finding { clause: clause.into(), what: what.into() }
 }
 
+/// The package was leaked after a panic in an earlier step (which was reported there).
+pub fn no_package() -> Finding {
+    finding("no-package", "the package was lost after an earlier panic")
+}
+
 pub fn panic_finding(ctx: &str, p: &PanicInfo) -> Finding {
     finding(format!("panic/{}", p.signature()), format!("{} panicked: {} at {}", ctx, p.message, p.location))
 }
@@ -142,7 +147,10 @@ impl Session {
     }
 
     pub fn observe(&mut self) -> Result<Obs, Finding> {
-        let pkg = self.pkg.as_mut().expect("live package");
+        let pkg = match self.pkg.as_mut() {
+            Some(p) => p,
+            None => return Err(no_package()),
+        };
         match guarded(|| observe(pkg)) {
             Ok(Ok((o, _issues))) => Ok(o),
             Ok(Err(e)) => Err(finding("observe-failed", format!("reading the package back failed: {}", e))),
@@ -154,7 +162,10 @@ impl Session {
     }
 
     fn observe_issues(&mut self) -> Result<(Obs, Vec<String>), Finding> {
-        let pkg = self.pkg.as_mut().expect("live package");
+        let pkg = match self.pkg.as_mut() {
+            Some(p) => p,
+            None => return Err(no_package()),
+        };
         match guarded(|| observe(pkg)) {
             Ok(Ok((o, issues))) => Ok((o, issues.0)),
             Ok(Err(e)) => Err(finding("observe-failed", format!("reading the package back failed: {}", e))),
@@ -182,7 +193,10 @@ impl Session {
             return Ok(());
         }
         let before_dead: Vec<String> = if mon.saved_image { tokens_in_model(&self.model) } else { Vec::new() };
-        let pkg = self.pkg.as_mut().expect("live package");
+        let pkg = match self.pkg.as_mut() {
+            Some(p) => p,
+            None => return Err(no_package()),
+        };
         let res = guarded(|| model::exec_op(pkg, op));
         let lib_ok = match res {
             Err(p) => {
@@ -266,7 +280,10 @@ impl Session {
 
     /// C08: flush, decode with the independent decoder, account.
     pub fn check_saved_image(&mut self, obs: &Obs, rep: &mut Report) -> Result<(), Finding> {
-        let pkg = self.pkg.as_mut().expect("live package");
+        let pkg = match self.pkg.as_mut() {
+            Some(p) => p,
+            None => return Err(no_package()),
+        };
         match guarded(|| pkg.flush()) {
             Ok(Ok(())) => {}
             Ok(Err(e)) => return Err(finding("flush-error", format!("flush failed: {}", e))),
@@ -289,7 +306,10 @@ impl Session {
         let m = format!("{:?}", mode);
         match mode {
             CloseMode::Flush => {
-                let pkg = self.pkg.as_mut().expect("live package");
+                let pkg = match self.pkg.as_mut() {
+            Some(p) => p,
+            None => return Err(no_package()),
+        };
                 match guarded(|| pkg.flush()) {
                     Ok(Ok(())) => {}
                     Ok(Err(e)) => return Err(finding("flush-error", format!("flush failed: {}", e))),
@@ -323,7 +343,10 @@ impl Session {
                 self.last = Some(still);
             }
             CloseMode::IntoInner | CloseMode::Drop => {
-                let pkg = self.pkg.take().expect("live package");
+                let pkg = match self.pkg.take() {
+                    Some(p) => p,
+                    None => return Err(no_package()),
+                };
                 if mode == CloseMode::IntoInner {
                     match guarded(move || pkg.into_inner().map(|_h| ())) {
                         Ok(Ok(())) => {}
